@@ -64,6 +64,34 @@ impl ReadCursor {
         v
     }
 
+    /// type dispatch for the `ToFree::delete` stand-in (memory.rs contracts): the two element types
+    /// this module retires through the memory manager
+    pub(crate) unsafe fn vf_delete_dispatch(freer: usize, mem: *mut u8, num: usize) -> bool {
+        if freer == MemoryManager::vf_freer_of::<ReaderGroup>() {
+            MemoryManager::vf_free_as::<ReaderGroup>(mem, num);
+            true
+        } else if freer == MemoryManager::vf_freer_of::<ReaderPos>() {
+            MemoryManager::vf_free_as::<ReaderPos>(mem, num);
+            true
+        } else {
+            false
+        }
+    }
+
+    /// ghost accessors by raw position-object pointer / by handle address (environment, layer I)
+    pub(crate) unsafe fn vf_pos_cell_of(p: *const u8) -> usize {
+        (*(p as *const ReaderPos)).pos_data.vf_cell_addr()
+    }
+    pub(crate) unsafe fn vf_set_pos_of(p: *const u8, v: usize) {
+        (*(p as *const ReaderPos)).pos_data.vf_poke(v)
+    }
+    pub(crate) unsafe fn vf_consumers_of_handle(h: usize) -> usize {
+        (*(h as *const Reader)).vf_consumers()
+    }
+    pub(crate) unsafe fn vf_set_consumers_of_handle(h: usize, v: usize) {
+        (*(h as *const Reader)).vf_set_consumers(v)
+    }
+
     pub(crate) fn vf_group_ptr(&self) -> usize {
         self.readers.peek() as usize
     }
